@@ -691,6 +691,19 @@ def run_merge(ctx, mon, rng, trees, specs, ns, rooted, use_w, ign_len, ages, len
     if hold:
         query_bundle(ctx, mon, rng, sd, ta, specs, ns, rooted, lengths_ok, ages, summarise_first=use_w and rng.random() < 0.4,
                      kept=kept)
+    # the SOURCES of the merge are collections in their own right: after the merged collection has grown they must still
+    # describe their own trees (seeded change C05e: a receiver that lacked a split adopted the source's value lists by
+    # reference, so the source's length / age summaries later held foreign values)
+    for p in parts:
+        if p is merged:
+            continue
+        psd = p if mode == "sd.update" else p.split_distribution
+        r = mon.ref_of(psd)
+        if r is None or r.tainted or not r.n:
+            continue
+        ctx.ev("merge-source-queried-after-the-merge")
+        query_bundle(ctx, mon, rng, psd, None if mode == "sd.update" else p, specs, ns, rooted, lengths_ok, ages,
+                     summarise_first=True, heavy=False)
     return sd
 
 
